@@ -113,6 +113,13 @@ class seam_installed:
 
 # ----------------------------------------------------------------------- scenario
 def generate(tape, tier="quick"):
+    if tape.chance(1, 6):
+        # whole compositions (engine E1): the same scenario with and without a composition-wide limit
+        from ..gen import gen_e1
+        sc = gen_e1(tape, tier, allow_cycles=tape.chance(1, 3), pull_fanout=False, allow_delay_push=False)
+        sc["engine"] = "E1X"
+        sc["limits"] = sorted({0, 8, tape.choice([16, 24, 40, 64, 200])})
+        return sc
     slot = tape.choice(["output", "output", "next", "prev", "linear", "step", "avg", "sum", "sum_abs"])
     gridded = tape.chance(1, 2)
     g = gen_structured(tape, max_dim=2, max_len=4, kinds=("uniform",)) if gridded else None
@@ -286,7 +293,52 @@ def limits_for(sc):
     return sorted(lims)
 
 
+def execute_e1(sc):
+    from ..monitor import run_e1
+    viol = []
+    root = os.path.join(scratch_dir(), "spill-e1")
+    shutil.rmtree(root, ignore_errors=True)
+    base = dict(sc, engine="E1")
+    ref = run_e1(dict(base, mem_limit=None), value_check=False)
+    outcomes = []
+    saves = loads = 0
+    if ref["obs"]["status"] == "ok":
+        for lim in sc["limits"]:
+            shutil.rmtree(root, ignore_errors=True)
+            os.makedirs(root, exist_ok=True)
+            seam = Seam(root)
+            with seam_installed(seam):
+                r = run_e1(dict(base, mem_limit=lim), scratch=root, value_check=False)
+            saves += sum(1 for x in seam.calls if x[0] == "save")
+            loads += sum(1 for x in seam.calls if x[0] == "load")
+            outcomes.append((lim, r["obs"]["status"], r["obs"]["exc"]))
+            if r["obs"]["status"] != "ok":
+                viol.append({"oracle": "spill-differs", "kind": str(r["obs"]["exc"]), "msg":
+                             f"composition with slot_memory_limit={lim} ended with {r['obs']['exc']}: {r['obs']['exc_msg']}; it completes without limit"})
+                break
+            if r["obs"]["series"] != ref["obs"]["series"] or r["obs"]["final_times"] != ref["obs"]["final_times"]:
+                k = next((k for k in ref["obs"]["series"] if r["obs"]["series"].get(k) != ref["obs"]["series"][k]), "?")
+                viol.append({"oracle": "spill-differs", "kind": "series", "msg":
+                             f"slot_memory_limit={lim}: series of {k} differs from the run without limit"})
+                break
+            left = sorted(os.listdir(root))
+            if left:
+                viol.append({"oracle": "spill-leftover", "kind": "composition", "msg":
+                             f"slot_memory_limit={lim}: {len(left)} file(s) remain after the composition was finalized: {left[:3]}"})
+                break
+            for op, path in seam.calls:
+                if op == "save" and not os.path.realpath(path).startswith(seam.root + os.sep):
+                    viol.append({"oracle": "spill-path", "kind": "composition", "msg": f"file {path} outside {root}"})
+    shutil.rmtree(root, ignore_errors=True)
+    return {"violations": viol, "digest": digest_of([ref["digest"], outcomes]), "nontrivial": saves > 0 and loads > 0,
+            "probes": {"saves": saves, "loads": loads, "e1_compositions": 1}, "faults": {"F6_limits_enumerated": len(sc["limits"])},
+            "sig": ref["sig"], "cls": "E1-composition", "sim_hours": ref["sim_hours"] * (1 + len(sc["limits"])),
+            "outcome": {"engine": "E1", "reference": ref["obs"]["status"], "per_limit": outcomes}}
+
+
 def execute(sc):
+    if sc.get("engine") == "E1X":
+        return execute_e1(sc)
     viol = []
 
     def v(oracle, kind, msg):
